@@ -487,7 +487,8 @@ Definition stream_decode (lim : limits) (d : dstate) : sres * dstate :=
           match body_length h with
           | None => (SErr, d1)
           | Some len =>
-              if (Z.of_N (l_body lim) <? len)%Z then (SErr, d1)
+              if (len <? 0)%Z then (SErr, d1)                                         (* negative body-length rejected *)
+              else if (Z.of_N (l_body lim) <? len)%Z then (SErr, d1)
               else if (Z.of_N (lenN headAndSep) + len <? 0)%Z then (SPanic, d1)          (* make([]byte, 0, negative) *)
               else
                 let '(bodyo, d2) := if (0 <? len)%Z then read_exact (Z.to_N len) d1 else (Some [], d1) in
